@@ -293,7 +293,7 @@ def run_one(rng, counters):
         if not sim.reads:
             return [], False, {"params": p}
         if P == 2:
-            doc, blocks = genome.truth_phased_doc(sim, rng, tag=opts["vcf_tag"], block_len=(3, 9))
+            doc, blocks = genome.truth_phased_doc(sim, rng, tag=opts["vcf_tag"], block_len=(3, 9), hp_unsorted=0.3)
         else:
             doc, blocks = genome.truth_phased_doc_poly(sim, rng, block_len=(3, 9))
         vcf = os.path.join(tmp, "phased.vcf.gz")
